@@ -6,6 +6,7 @@ mod c06;
 mod c07;
 mod c08;
 mod c09;
+mod c11;
 mod c12;
 mod c13;
 mod c14;
@@ -17,6 +18,7 @@ mod c16conf;
 mod c19;
 mod c20;
 mod simdir;
+mod wl;
 mod dump;
 mod hist;
 mod iso;
@@ -37,6 +39,7 @@ fn registry(id: &str) -> Option<(RunFn, ReplayFn)> {
         "C07" => Some((c07::run, c07::replay)),
         "C08" => Some((c08::run, c08::replay)),
         "C09" => Some((c09::run, c09::replay)),
+        "C11" => Some((c11::run, c11::replay)),
         "C12" => Some((c12::run, c12::replay)),
         "C13" => Some((c13::run, c13::replay)),
         "C14" => Some((c14::run, c14::replay)),
@@ -68,6 +71,7 @@ fn main() {
             ("C16", _) => c16::worker(fam, start, end, step, arg),
             ("C02", _) | ("C04", _) => c02::worker(fam, start, end, step, arg),
             ("C18", _) => c18::worker(fam, start, end, step, arg),
+            ("C11", _) => c11::worker(fam, start, end, step, arg),
             _ => panic!("unknown worker"),
         }
         return;
